@@ -1624,3 +1624,39 @@ def same_value_site(a, b):
             return a.a[0] == b.a[0]
         return tkey(a) == tkey(b)
     return False
+
+
+def option_switch_on(fn, og, call_block):
+    """the switch on Some/None of the Option produced by the call in `call_block`, also when the Option first passes through
+    value-preserving adaptors (`.cloned()`, `.copied()`, `.as_ref()`, a move into a local): (switch block, labels) or (None, {})"""
+    sw = switch_after_call(fn, call_block)
+    if sw is not None:
+        return sw, switch_info(fn, sw)[1]
+    site = (fn.id, call_block)
+    for b, blk in enumerate(fn.blocks):
+        t = blk["t"]
+        if t["k"] != "switch" or blk["cleanup"]:
+            continue
+        vm = discr_variants(fn, t["d"])
+        if not vm or set(vm.values()) != {"Some", "None"}:
+            continue
+        term = og.of_operand(t["d"])
+        inner = term.a if term.k == "discr" else term
+        # descend from the tested value to the call through value-preserving adaptors only
+        node = inner
+        ok = False
+        for _ in range(8):
+            while node.k in ("field", "downcast"):
+                node = node.a[0]
+            if node.k != "call":
+                break
+            if node.site == site:
+                ok = True
+                break
+            w = node.a[0].rsplit("::", 1)[-1]
+            if not (w in ("cloned", "copied", "as_ref", "as_deref", "clone") or is_transparent(node.a[0])) or not node.a[1]:
+                break
+            node = node.a[1][0]
+        if ok and dominates(fn, call_block, b):
+            return b, switch_info(fn, b)[1]
+    return None, {}
